@@ -3,5 +3,5 @@ PROPS["C11"]["lean_modules"] = PROPS["C11"]["lean_modules"] + ["BV.Props.C11Sane
 PROPS["C11"]["level_note"] = PROPS["C11"]["level_note"] + (
     " Addendum: EncSane of the stream-machine model as the adapters' encoder (no call reports more input consumed than offered nor more"
     " output than there was room for) is now proved for EVERY payload oracle, without OracleBounded (BV.Props.C11Sane enc_sane_stream_free,"
-    " from the byte ledger Lemmas/StreamTotal.lean call_ledger); EncProgress (a stalled call lowers a cross-call rank) and the _stream"
-    " termination theorems still assume the uniform bound OracleBounded.")
+    " from the byte ledger Lemmas/StreamTotal.lean call_ledger); Since the rework of the termination potential (per-call storage bound callCap, state-only ranks over stateCap) EncProgress and the _stream"
+    " termination theorems (write/flush/into_inner/read_returns_stream, copy_terminates_stream) are free of OracleBounded as well.")
